@@ -115,14 +115,16 @@ def parseShort (fx : Bool) (s : Bytes) (specs : List OptionSpec) : Res (List Opt
   parseShortLoop fx specs s (runes s) []
 
 /-- The loop of `parseLong`; `eq` is `strings.IndexRune(s, '=')`.
-Fixed code skips specs with `Long == ""`. -/
+Fixed code skips specs with `Long == ""`, and has a third result: an argument
+was given with `=` to an option that takes none (always `false` in the
+unchanged code, which has no such result). -/
 def parseLongFrom (fx : Bool) (s : Bytes) (eq : Option Nat) :
-    List OptionSpec → Nat → Res (Option (Opt × Bool))
+    List OptionSpec → Nat → Res (Option (Opt × Bool × Bool))
   | [], _ => .ok none
   | sp :: rest, k =>
     if fx && sp.long.isEmpty then parseLongFrom fx s eq rest (k + 1)
     else if s == sp.long then
-      .ok (some (⟨some k, sp, false, true, []⟩, sp.arity == RequiredArgument))
+      .ok (some (⟨some k, sp, false, true, []⟩, sp.arity == RequiredArgument, false))
     else
       match eq with
       | none => parseLongFrom fx s eq rest (k + 1)
@@ -131,7 +133,7 @@ def parseLongFrom (fx : Bool) (s : Bytes) (eq : Option Nat) :
         | .ok name =>
           if name == sp.long then
             match slice s ((e + 1 : Nat) : Int) s.length with
-            | .ok arg => .ok (some (⟨some k, sp, false, true, arg⟩, false))
+            | .ok arg => .ok (some (⟨some k, sp, false, true, arg⟩, false, fx && sp.arity == NoArgument))
             | .exc x => .exc x
             | .panic p => .panic p
           else parseLongFrom fx s eq rest (k + 1)
@@ -139,16 +141,16 @@ def parseLongFrom (fx : Bool) (s : Bytes) (eq : Option Nat) :
         | .panic p => .panic p
 
 /-- `parseLong(s, specs)` -/
-def parseLong (fx : Bool) (s : Bytes) (specs : List OptionSpec) : Res (Opt × Bool) :=
+def parseLong (fx : Bool) (s : Bytes) (specs : List OptionSpec) : Res (Opt × Bool × Bool) :=
   let eq := indexEq s
   match parseLongFrom fx s eq specs 0 with
   | .ok (some r) => .ok r
   | .ok none =>
     match eq with
-    | none => .ok (⟨none, ⟨0, s, OptionalArgument⟩, true, true, []⟩, false)
+    | none => .ok (⟨none, ⟨0, s, OptionalArgument⟩, true, true, []⟩, false, false)
     | some e =>
       match slice s 0 e, slice s ((e + 1 : Nat) : Int) s.length with
-      | .ok name, .ok arg => .ok (⟨none, ⟨0, name, OptionalArgument⟩, true, true, arg⟩, false)
+      | .ok name, .ok arg => .ok (⟨none, ⟨0, name, OptionalArgument⟩, true, true, arg⟩, false, false)
       | .panic p, _ => .panic p
       | .exc x, _ => .exc x
       | _, .panic p => .panic p
@@ -156,15 +158,18 @@ def parseLong (fx : Bool) (s : Bytes) (specs : List OptionSpec) : Res (Opt × Bo
   | .exc x => .exc x
   | .panic p => .panic p
 
-/-- The four loop variables of `parse`. -/
+/-- The loop variables of `parse`: the four of the unchanged code, and (fixed
+code, `fixes/C38-noarg-attached-arg.patch`) `extraArg`: the long options that
+take no argument but were written `--name=value`; they are not in `opts`. -/
 structure PState where
   opts : List Opt
   nonOptArgs : List Bytes
   opt : Option Opt
   stopOpt : Bool
+  extraArg : List Opt
   deriving Repr, DecidableEq
 
-def PState.init : PState := ⟨[], [], none, false⟩
+def PState.init : PState := ⟨[], [], none, false, []⟩
 
 /-- One iteration of `for _, arg := range args { switch { … } }` in `parse`. -/
 def parseStep (fx : Bool) (specs : List OptionSpec) (cfg : Nat) (st : PState) (arg : Bytes) :
@@ -179,8 +184,9 @@ def parseStep (fx : Bool) (specs : List OptionSpec) (cfg : Nat) (st : PState) (a
       match slice arg 2 arg.length with
       | .ok s =>
         match parseLong fx s specs with
-        | .ok (newopt, needArg) =>
-          if needArg then .ok { st with opt := some newopt }
+        | .ok (newopt, needArg, extra) =>
+          if extra then .ok { st with extraArg := st.extraArg ++ [newopt] }
+          else if needArg then .ok { st with opt := some newopt }
           else .ok { st with opts := st.opts ++ [newopt] }
         | .exc x => .exc x
         | .panic p => .panic p
@@ -191,8 +197,9 @@ def parseStep (fx : Bool) (specs : List OptionSpec) (cfg : Nat) (st : PState) (a
       | .ok s =>
         if has cfg LongOnly then
           match parseLong fx s specs with
-          | .ok (newopt, needArg) =>
-            if needArg then .ok { st with opt := some newopt }
+          | .ok (newopt, needArg, extra) =>
+            if extra then .ok { st with extraArg := st.extraArg ++ [newopt] }
+            else if needArg then .ok { st with opt := some newopt }
             else .ok { st with opts := st.opts ++ [newopt] }
           | .exc x => .exc x
           | .panic p => .panic p
@@ -224,7 +231,7 @@ def parseLoop (fx : Bool) (specs : List OptionSpec) (cfg : Nat) : PState → Lis
     | .exc x => .exc x
     | .panic p => .panic p
 
-/-- `parse(args, spec, cfg)`: `(opts, nonOptArgs, opt, stopOpt)`. -/
+/-- `parse(args, spec, cfg)`: `(opts, nonOptArgs, opt, stopOpt, extraArg)`. -/
 def parse (fx : Bool) (args : List Bytes) (specs : List OptionSpec) (cfg : Nat) : Res PState :=
   parseLoop fx specs cfg PState.init args
 
@@ -249,7 +256,8 @@ def parseErrors (st : PState) : List Bytes :=
   (match st.opt with
    | some o => [strBytes "missing argument for " ++ optionPart o]
    | none => []) ++
-  (st.opts.filter (·.unknown)).map fun o => strBytes "unknown option " ++ optionPart o
+  ((st.opts.filter (·.unknown)).map fun o => strBytes "unknown option " ++ optionPart o) ++
+  st.extraArg.map fun o => strBytes "option " ++ optionPart o ++ strBytes " doesn't take an argument"
 
 /-- `Parse(args, specs, cfg)`: `(opts, nonOptArgs, err.Error())`. -/
 def Parse (fx : Bool) (args : List Bytes) (specs : List OptionSpec) (cfg : Nat) :
@@ -275,7 +283,7 @@ def completeLast (fx : Bool) (specs : List OptionSpec) (cfg : Nat) (st : PState)
         if !containsEq arg then .ok (st.opts, st.nonOptArgs, ⟨LongOption, none, s⟩)
         else
           match parseLong fx s specs with
-          | .ok (newopt, _) => .ok (st.opts, st.nonOptArgs, ⟨OptionArgument, some newopt, []⟩)
+          | .ok (newopt, _, _) => .ok (st.opts, st.nonOptArgs, ⟨OptionArgument, some newopt, []⟩)
           | .exc x => .exc x
           | .panic p => .panic p
       | .exc x => .exc x
@@ -287,7 +295,7 @@ def completeLast (fx : Bool) (specs : List OptionSpec) (cfg : Nat) (st : PState)
           if !containsEq arg then .ok (st.opts, st.nonOptArgs, ⟨LongOption, none, s⟩)
           else
             match parseLong fx s specs with
-            | .ok (newopt, _) => .ok (st.opts, st.nonOptArgs, ⟨OptionArgument, some newopt, []⟩)
+            | .ok (newopt, _, _) => .ok (st.opts, st.nonOptArgs, ⟨OptionArgument, some newopt, []⟩)
             | .exc x => .exc x
             | .panic p => .panic p
         else
